@@ -39,6 +39,8 @@ macro_rules! spec_table {
 spec_table!(
     "", "#", "0", "1", "01", "#1", "5", "05", "#5", "#05", "<5", "^5", ">5", "-<5", "0<7", "70", "070", "#070", "<70", "^70", ">70", "*<70", "*^71",
     "*>70", "*^#70", "#<70", "x^#9", "+", "+5", "+070", "+#070", "*>+9", "300", "0300", "#0300", "^#300", ".3", "10.3", "#010.2", "é^11",
+    // explicit alignment together with the zero flag (the flag wins over fill and alignment for integers)
+    "<08", "^08", ">08", "<070", "^#070", "*<09", "*^+#011", "<0300", "-^012", ">+#09", "^071",
 );
 const TRAITS: [&str; 6] = ["Display", "Debug", "LowerHex", "UpperHex", "Octal", "Binary"];
 
@@ -362,7 +364,7 @@ fn fmt_values(bits: usize, budget: usize) -> Vec<Limbs> {
 }
 
 fn c09(r: &Runner) {
-    r.set_rule("digits: round trips of every value of the width's universe in every base 2..2^B+2 (B <= 8) resp. a fixed list of 20 bases incl. 2^32+-1, 10^19, 2^63, 2^64-1, 2^B-1 and 0, 1 (invalid); all digit strings up to length ceil(B/log2 b)+2 over {0,1,b-1,b,b+1} for B <= 8; overflow-by-one strings at every width. formatting: 6 traits x 40 format specs x values of S(B) (B <= 10), P/R(B) and the chunk boundaries M^k + d of the four spigot bases; reference = the same spec applied to u128 (when it fits) and to a wrapper over Formatter::pad_integral. parsing: all strings of length <= 2 over an 87-character set (both alphabets, separators, CR/LF, space, multi-byte characters) plus length-3 strings, x every radix 0..=66, plus FromStr prefix sniffing. non-trivial = multi-digit / multi-chunk values or error outcomes");
+    r.set_rule("digits: round trips of every value of the width's universe in every base 2..2^B+2 (B <= 8) resp. a fixed list of 20 bases incl. 2^32+-1, 10^19, 2^63, 2^64-1, 2^B-1 and 0, 1 (invalid); all digit strings up to length ceil(B/log2 b)+2 over {0,1,b-1,b,b+1} for B <= 8; overflow-by-one strings at every width. formatting: 6 traits x 51 format specs x values of S(B) (B <= 10), P/R(B) and the chunk boundaries M^k + d of the four spigot bases; reference = the same spec applied to u128 (when it fits) and to a wrapper over Formatter::pad_integral. parsing: all strings of length <= 2 over an 87-character set (both alphabets, separators, CR/LF, space, multi-byte characters) plus length-3 strings, x every radix 0..=66, plus FromStr prefix sniffing. non-trivial = multi-digit / multi-chunk values or error outcomes");
     let ws = if SWEEP { WIDTHS } else if r.is_thorough() { W_T } else { W_Q };
     // ---- digit conversion
     for &bits in ws {
@@ -508,7 +510,7 @@ fn c09(r: &Runner) {
     // ---- formatting
     for &bits in ws {
         let vals = if bits <= (if SWEEP { 7 } else { 10 }) { small_all(bits) } else { fmt_values(bits, if SWEEP { 60 } else if r.is_thorough() { 10_000 } else { 500 }) };
-        r.universe(&format!("{} values x 40 specs x 6 traits", vals.len()), bits, vals.len(), |i, l| {
+        r.universe(&format!("{} values x {} specs x 6 traits", vals.len(), SPECS.len()), bits, vals.len(), |i, l| {
             let a = vu(&vals[i]);
             l.states(1);
             exec(l, bits, Op::to_string, &[a.clone()]);
